@@ -8,7 +8,7 @@ two-copy query.  A constant-time routine therefore runs as ONE path covering all
 functions entered is exact, which decides "never calls a ...Vartime routine"."""
 import os
 import re
-from .common import Check, load_prog, load_globals, new_machine, tm, X, MOD, N_ORDER, P_FIELD, sym_limbs, sym_bytes, cat_limbs, cat_bytes, REPO
+from .common import Check, load_prog, load_globals, new_machine, tm, X, MOD, N_ORDER, P_FIELD, sym_limbs, sym_bytes, cat_limbs, cat_bytes, REPO, point_tree, point_get
 from . import models, stubs, c06
 from engine import asmx86
 
@@ -258,7 +258,7 @@ def main():
 
     # ------------------------------------------------------------------ 2. scalar multiplications with a secret scalar
     def pub_point(m, name):
-        tree = [[], [[], sym_limbs(name + '_x')], [[], sym_limbs(name + '_y')], [[], sym_limbs(name + '_z')], True]
+        tree = point_tree(m, name, [[], sym_limbs(name + '_x')], [[], sym_limbs(name + '_y')], [[], sym_limbs(name + '_z')], True)
         return X.Ptr(m.new_obj(None, tree=tree, label='Point:' + name), ())
 
     def sec_scalar(m, ctx, name, nonzero=True):
